@@ -202,7 +202,6 @@ func lensDispWriters(c *core.Ctx, nt *types.Named, dispField string) (int, strin
 	return n, ""
 }
 
-
 // lensType finds the concrete type NewLens constructs.
 func lensType(c *core.Ctx) *types.Named {
 	fn := c.W.Func("optics", "NewLens")
